@@ -364,6 +364,8 @@ impl State {
                 let column_name = ColumnName(fields[2].to_string());
                 self.mps.integer.remove(&column_name);
                 self.mps.real.remove(&column_name);
+                self.mps.l.insert(column_name.clone(), 0.0);
+                self.mps.u.insert(column_name.clone(), 1.0);
                 self.mps.binary.insert(column_name);
             }
             //   FR    free variable      -inf < x < +inf
